@@ -1,4 +1,638 @@
-import TangeloModel.Circuit
+import TangeloProofs.Lemmas.CircuitInv
+/-!
+# C11 — circuit metadata stays consistent under any operation history
+
+Property theorems only (helper lemmas live in `Lemmas/CircuitInv.lean`).
+The model (`TangeloModel/Circuit.lean`, `Store.lean`) mirrors `tangelo/linq/circuit.py`,
+`gate.py`; the correspondence check replays histories on both.
+-/
 namespace Tangelo.C11
-theorem placeholder : True := trivial
+open Tangelo Circuit
+
+/-- every circuit of the store satisfies the metadata invariant -/
+def AllInv (s : Store) : Prop := ∀ p ∈ s, p.2.Inv
+
+theorem allInv_put (s : Store) (k : String) (c : Circuit) (hs : AllInv s) (hc : c.Inv) : AllInv (s.put k c) := by
+  intro p hp
+  unfold Store.put at hp
+  split at hp
+  · obtain ⟨q, hq, rfl⟩ := List.mem_map.mp hp
+    split
+    · exact hc
+    · exact hs q hq
+  · rcases List.mem_append.mp hp with h | h
+    · exact hs p h
+    · simp at h; subst h; exact hc
+
+theorem need_inv (s : Store) (k : String) (c : Circuit) (hs : AllInv s) (h : need s k = .ok c) : c.Inv := by
+  unfold need Store.get? at h
+  split at h
+  · rename_i c' hc'
+    injection h with h; subst h
+    cases hf : s.find? (·.1 == k) with
+    | none => simp [hf] at hc'
+    | some p =>
+      simp [hf] at hc'
+      subst hc'
+      exact hs p (List.mem_of_find?_eq_some hf)
+  · cases h
+
+/-! ## each operation keeps the invariant -/
+
+theorem inv_add (c d r : Circuit) (h : c.add d = .ok r) : r.Inv := inv_ofGates _ _ r h
+theorem inv_mul (c r : Circuit) (n : Int) (h : c.mul n = .ok r) : r.Inv := by
+  unfold Circuit.mul at h; split at h
+  · cases h
+  · exact inv_ofGates _ _ r h
+theorem inv_copy (c r : Circuit) (h : c.copy = .ok r) : r.Inv := inv_ofGates _ _ r h
+theorem inv_inverse (c r : Circuit) (h : c.inverse = .ok r) : r.Inv := by
+  unfold Circuit.inverse at h
+  simp only [bind, Except.bind] at h
+  split at h
+  · cases h
+  · exact inv_ofGates _ _ r h
+theorem inv_removeSmall (p : Gate → Bool) (c r : Circuit) (rq : Bool) (h : removeSmallWith p c rq = .ok r) : r.Inv := by
+  unfold removeSmallWith at h
+  split at h <;> exact inv_ofGates _ _ r h
+
+theorem inv_trim (c r : Circuit) (hc : c.Inv) (h : c.trimQubits = .ok r) : r.Inv := by
+  unfold Circuit.trimQubits at h
+  simp only [bind, Except.bind] at h
+  split at h
+  · cases h
+  · rename_i gs hgs
+    simp only [pure, Except.pure] at h
+    injection h with h; subst h
+    apply inv_remap c _ gs _ hc hgs
+    intro q hq
+    -- the image of `l.zipIdx` is `range l.length`
+    obtain ⟨p, hp, rfl⟩ := List.mem_map.mp hq
+    obtain ⟨a, i⟩ := p
+    have := List.mem_zipIdx hp
+    simp only [List.mem_range]
+    omega
+
+theorem inv_reindex (c r : Circuit) (idx : List Nat) (hc : c.Inv) (h : c.reindexQubits idx = .ok r) : r.Inv := by
+  unfold Circuit.reindexQubits at h
+  split at h
+  · cases h
+  · simp only [bind, Except.bind] at h
+    split at h
+    · cases h
+    · rename_i gs hgs
+      simp only [pure, Except.pure] at h
+      injection h with h; subst h
+      apply inv_remap c _ gs _ hc hgs
+      intro q hq
+      obtain ⟨p, hp, rfl⟩ := List.mem_map.mp hq
+      simp only [setOfList, mem_foldl_setInsert]
+      left
+      exact (List.of_mem_zip hp).2
+
+/-! ## rejected and read-only operations leave every stored circuit as it was -/
+
+theorem step_rejected_unchanged (d : Decide) (s : Store) (op : COp) (e : Err)
+    (h : (step d s op).2 = .err e) : (step d s op).1 = s ∨ ∃ r, stepE d s op = .ok r := by
+  unfold step at h ⊢
+  split
+  · right; exact ⟨_, by assumption⟩
+  · left; rfl
+
+/-- an operation that the model rejects returns the store unchanged -/
+theorem step_error_store (d : Decide) (s : Store) (op : COp) (e : Err) (h : stepE d s op = .error e) :
+    step d s op = (s, .err e) := by
+  simp [step, h]
+
+/-- depth, ==, entangled sets, translation and simulation never change the store -/
+theorem readonly_store (d : Decide) (s : Store) :
+    (∀ a, (step d s (.depth a)).1 = s) ∧ (∀ a b, (step d s (.eq a b)).1 = s) ∧
+    (∀ a, (step d s (.entangled a)).1 = s) ∧ (step d s .noop).1 = s := by
+  refine ⟨?_, ?_, ?_, ?_⟩
+  · intro a
+    simp only [step, stepE, bind, Except.bind]
+    cases need s a <;> simp [pure, Except.pure]
+  · intro a b
+    simp only [step, stepE, bind, Except.bind]
+    cases need s a <;> cases need s b <;> simp [pure, Except.pure]
+  · intro a
+    simp only [step, stepE, bind, Except.bind]
+    cases need s a <;> simp [pure, Except.pure]
+  · simp [step, stepE, pure, Except.pure]
+
+/-! ## reported metadata = recomputation from the gate list -/
+
+theorem filterMap_getElem?_length (gs : List Gate) (idx : List Nat) (h : ∀ i ∈ idx, i < gs.length) :
+    (idx.filterMap (fun i => gs[i]?)).length = idx.length := by
+  induction idx with
+  | nil => rfl
+  | cons i is ih =>
+    have hi := h i (by simp)
+    have := ih (fun j hj => h j (by simp [hj]))
+    simp [List.getElem?_eq_getElem hi, this]
+
+theorem varGates_length (c : Circuit) (h : ∀ i ∈ c.varIdx, i < c.gates.length) : c.varGates.length = c.varIdx.length :=
+  filterMap_getElem?_length c.gates c.varIdx h
+
+/-- `size`, `counts`, `counts_n_qubit`, `is_variational`, `is_mixed_state` as functions of the gate list -/
+theorem meta_recomputed (c : Circuit) (hc : c.Inv) :
+    c.size = c.gates.length ∧
+    (∀ nm, lookupD c.counts nm = c.gates.countP (fun g => g.name == nm)) ∧
+    (∀ k, lookupD c.nqCounts k = c.gates.countP (fun g => g.qubits.length == k)) ∧
+    (c.isVariational = c.gates.any (fun g => g.isVar)) ∧
+    (c.isMixedState = c.gates.any (fun g => g.name == "MEASURE" || g.name == "CMEASURE")) := by
+  refine ⟨rfl, hc.counts, hc.nq, ?_, ?_⟩
+  · have hl := varGates_length c hc.varLt
+    rw [hc.var] at hl
+    unfold Circuit.isVariational
+    cases hv : c.varIdx with
+    | nil =>
+      rw [hv] at hl
+      simp only [List.isEmpty_nil, Bool.not_true]
+      symm
+      rw [List.any_eq_false]
+      intro g hg hgv
+      have hmem : g ∈ c.gates.filter (fun g => g.isVar) := List.mem_filter.mpr ⟨hg, hgv⟩
+      have hnil : c.gates.filter (fun g => g.isVar) = [] := List.length_eq_zero_iff.mp (by simpa using hl)
+      rw [hnil] at hmem
+      simp at hmem
+    | cons i is =>
+      rw [hv] at hl
+      simp only [List.isEmpty_cons, Bool.not_false]
+      symm
+      rw [List.any_eq_true]
+      have : 0 < (c.gates.filter (fun g => g.isVar)).length := by simp at hl; omega
+      obtain ⟨g, hg⟩ := List.exists_mem_of_length_pos this
+      exact ⟨g, (List.mem_filter.mp hg).1, (List.mem_filter.mp hg).2⟩
+  · unfold Circuit.isMixedState
+    rw [hc.counts, hc.counts]
+    rw [Bool.eq_iff_iff]
+    simp only [Bool.or_eq_true, decide_eq_true_eq, List.countP_pos_iff, List.any_eq_true, beq_iff_eq]
+    constructor
+    · rintro (⟨g, hg, h⟩ | ⟨g, hg, h⟩)
+      · exact ⟨g, hg, Or.inl h⟩
+      · exact ⟨g, hg, Or.inr h⟩
+    · rintro ⟨g, hg, h | h⟩
+      · exact Or.inl ⟨g, hg, h⟩
+      · exact Or.inr ⟨g, hg, h⟩
+
+theorem le_getLast_of_sorted (l : List Nat) (hs : l.Pairwise (· < ·)) (hne : l ≠ []) (q : Nat) (hq : q ∈ l) :
+    q ≤ l.getLast hne := by
+  induction l with
+  | nil => exact absurd rfl hne
+  | cons x xs ih =>
+    cases xs with
+    | nil => simp at hq; simp [hq]
+    | cons y ys =>
+      have hp := List.pairwise_cons.mp hs
+      rw [List.getLast_cons (List.cons_ne_nil y ys)]
+      rcases List.mem_cons.mp hq with e | e
+      · subst e
+        have hy := hp.1 ((y :: ys).getLast (List.cons_ne_nil y ys)) (List.getLast_mem _)
+        omega
+      · exact ih hp.2 (List.cons_ne_nil y ys) e
+
+/-- every qubit a gate touches is below the reported width -/
+theorem used_lt_width (c : Circuit) (hc : c.Inv) (hs : c.indices.Pairwise (· < ·)) :
+    ∀ g ∈ c.gates, ∀ q ∈ g.qubits, q < c.width := by
+  intro g hg q hq
+  have hm := hc.used g hg q hq
+  have hne : c.indices ≠ [] := by intro e; simp [e] at hm
+  have := le_getLast_of_sorted c.indices hs hne q hm
+  unfold Circuit.width
+  rw [List.getLast?_eq_some_getLast hne]
+  simp only
+  omega
+
+/-! ## gate construction: rejection rules -/
+
+theorem hasDup_false_iff (l : List Nat) : Gate.hasDup l = false ↔ l.Nodup := by
+  induction l with
+  | nil => simp [Gate.hasDup]
+  | cons x xs ih => simp [Gate.hasDup, ih, List.nodup_cons]
+
+theorem checkIdx_some (l : List RawIdx) (r : List Nat) (h : Gate.checkIdx l = some r) :
+    ∀ x ∈ l, ∃ i : Int, x = .int i ∧ 0 ≤ i := by
+  induction l generalizing r with
+  | nil => simp
+  | cons x xs ih =>
+    cases x with
+    | other => simp [Gate.checkIdx] at h
+    | int i =>
+      simp only [Gate.checkIdx] at h
+      split at h
+      · cases h
+      · rename_i hi
+        cases hr : Gate.checkIdx xs with
+        | none => simp [hr] at h
+        | some r' =>
+          intro y hy
+          rcases List.mem_cons.mp hy with e | e
+          · subst e; exact ⟨i, rfl, by omega⟩
+          · exact ih r' hr y e
+
+/-- an accepted gate has: only non-negative integer indices, no duplicate qubit, the target count
+    of its name, and a control list only on a name starting with `C` -/
+theorem mk?_sound (name : Option String) (t : List RawIdx) (c : Option (List RawIdx)) (p : Param) (v : Bool) (g : Gate)
+    (h : Gate.mk? name t c p v = .ok g) :
+    (∀ x ∈ t, ∃ i : Int, x = .int i ∧ 0 ≤ i) ∧
+    (∀ cs, c = some cs → ∀ x ∈ cs, ∃ i : Int, x = .int i ∧ 0 ≤ i) ∧
+    g.qubits.Nodup ∧
+    (Tables.oneTargetGates.contains g.name → g.target.length = 1) ∧
+    (Tables.twoTargetGates.contains g.name → g.target.length = 1 ∨ g.target.length = 2) ∧
+    (g.control.isSome → g.name.front = 'C') := by
+  unfold Gate.mk? at h
+  split at h
+  · cases h
+  · rename_i tgt htgt
+    split at h
+    · cases h
+    · rename_i nm0
+      simp only at h
+      split at h
+      · cases h
+      · rename_i ctl hctl
+        by_cases hdup : Gate.hasDup (tgt ++ ctl.getD []) = true
+        · simp [hdup] at h
+        · by_cases hnt : (tgt.length != Gate.expectedTargets nm0.toUpper tgt.length) = true
+          · simp [hdup, hnt] at h
+          · simp only [hdup, hnt] at h
+            injection h with h; subst h
+            have hlen : tgt.length = Gate.expectedTargets nm0.toUpper tgt.length := by simpa using hnt
+            have hT := checkIdx_some t tgt htgt
+            refine ⟨hT, ?_, ?_, ?_, ?_, ?_⟩
+            · intro cs hcs x hx
+              subst hcs
+              simp only at hctl
+              split at hctl
+              · cases hctl
+              · split at hctl
+                · cases hctl
+                · rename_i c' hc'
+                  exact checkIdx_some cs c' hc' x hx
+            · simp only [Gate.qubits]
+              exact (hasDup_false_iff (tgt ++ ctl.getD [])).mp (by simpa using hdup)
+            · intro h1
+              simp only [Gate.expectedTargets, h1, if_true] at hlen
+              exact hlen
+            · intro h2
+              simp only [Gate.expectedTargets, h2, if_true] at hlen
+              split at hlen
+              · left; exact hlen
+              · right; exact hlen
+            · intro hsome
+              simp only at hsome
+              cases c with
+              | none => simp at hctl; subst hctl; simp at hsome
+              | some cs =>
+                simp only at hctl
+                split at hctl
+                · cases hctl
+                · rename_i hfront
+                  simpa using hfront
+
+/-- negative or non-integer target index ⇒ `ValueError`, whatever the other arguments -/
+theorem mk?_rejects_bad_target (name : Option String) (t : List RawIdx) (c : Option (List RawIdx)) (p : Param) (v : Bool)
+    (h : Gate.checkIdx t = none) : Gate.mk? name t c p v = .error .value := by
+  simp [Gate.mk?, h]
+
+/-! ## non-vacuity -/
+example : (Circuit.ofGates [⟨"H", [0], none, .none, false⟩, ⟨"CRZ", [1], some [0], .ang (Ang.piQuarter 1), true⟩] (some 3)).isOk = true := by decide
+example : ∃ c, Circuit.ofGates [⟨"H", [0], none, .none, false⟩] none = .ok c ∧ c.Inv := by
+  cases h : Circuit.ofGates [⟨"H", [0], none, .none, false⟩] none with
+  | ok c => exact ⟨c, rfl, inv_ofGates _ _ _ h⟩
+  | error e => simp [Circuit.ofGates, Circuit.addGates, Circuit.addGate, Circuit.addGateBad, Circuit.empty] at h
+
+end Tangelo.C11
+
+namespace Tangelo.C11
+open Tangelo Circuit
+
+/-! ## the remaining operations, and the theorem over whole histories -/
+
+theorem inv_merge (eqv : Gate → Gate → Bool) (c r : Circuit) (h : mergeRotationsWith eqv c = .ok r) : r.Inv := by
+  unfold mergeRotationsWith at h
+  simp only [bind, Except.bind] at h
+  split at h
+  · cases h
+  · exact inv_ofGates _ _ r h
+
+theorem inv_removeRedundant (eqv : Gate → Gate → Bool) (c r : Circuit) (rq : Bool)
+    (h : removeRedundantWith eqv c rq = .ok r) : r.Inv := by
+  unfold removeRedundantWith at h
+  simp only [bind, Except.bind] at h
+  split at h
+  · cases h
+  · split at h <;> exact inv_ofGates _ _ r h
+
+theorem inv_simplify_loop (eqv : Gate → Gate → Bool) (small : Gate → Bool) (maxCycles : Nat) (rq : Bool) :
+    ∀ (fuel i : Nat) (cOld cNew r : Circuit), cOld.Inv →
+      simplifyWith.loop eqv small maxCycles rq fuel i cOld cNew = .ok r → r.Inv := by
+  intro fuel
+  induction fuel with
+  | zero => intro i cOld cNew r ho h; simp [simplifyWith.loop] at h; subst h; exact ho
+  | succ n ih =>
+    intro i cOld cNew r ho h
+    simp only [simplifyWith.loop] at h
+    split at h
+    · simp only [bind, Except.bind] at h
+      split at h
+      · cases h
+      · rename_i m hm
+        split at h
+        · cases h
+        · rename_i s hs
+          split at h
+          · cases h
+          · rename_i rr hrr
+            exact ih (i + 1) rr cOld r (inv_removeRedundant eqv s rr rq hrr) h
+    · injection h with h; subst h; exact ho
+
+theorem inv_simplify (eqv : Gate → Gate → Bool) (small : Gate → Bool) (c r : Circuit) (n : Nat) (rq : Bool)
+    (h : simplifyWith eqv small c n rq = .ok r) : r.Inv := by
+  unfold simplifyWith at h
+  simp only [bind, Except.bind] at h
+  split at h
+  · cases h
+  · rename_i c0 hc0
+    exact inv_simplify_loop eqv small n rq _ _ c0 _ r (inv_copy c c0 hc0) h
+
+/-- `mapM` in `Except` of an invariant-preserving partial function -/
+theorem mapM_inv (f : Circuit → Except Err Circuit) (hf : ∀ c r, c.Inv → f c = .ok r → r.Inv)
+    (cs rs : List Circuit) (hcs : ∀ c ∈ cs, c.Inv) (h : cs.mapM f = .ok rs) : ∀ r ∈ rs, r.Inv := by
+  induction cs generalizing rs with
+  | nil => simp [List.mapM_nil, pure, Except.pure] at h; subst h; simp
+  | cons c cs ih =>
+    rw [List.mapM_cons] at h
+    simp only [bind, Except.bind] at h
+    split at h
+    · cases h
+    · rename_i a ha
+      split at h
+      · cases h
+      · rename_i b hb
+        simp only [pure, Except.pure] at h
+        injection h with h; subst h
+        intro r hr
+        rcases List.mem_cons.mp hr with e | e
+        · subst e; exact hf c _ (hcs c (by simp)) ha
+        · exact ih b (fun c' hc' => hcs c' (by simp [hc'])) hb r e
+
+theorem foldlM_inv {β : Type} (P : β → Prop) {α : Type} (f : β → α → Except Err β)
+    (hf : ∀ b a b', P b → f b a = .ok b' → P b') (l : List α) (b b' : β) (hb : P b)
+    (h : l.foldlM f b = .ok b') : P b' := by
+  induction l generalizing b with
+  | nil => simp [List.foldlM_nil, pure, Except.pure] at h; subst h; exact hb
+  | cons a as ih =>
+    rw [List.foldlM_cons] at h
+    simp only [bind, Except.bind] at h
+    split at h
+    · cases h
+    · rename_i b1 hb1
+      exact ih b1 (hf b a b1 hb hb1) h
+
+theorem inv_split (c : Circuit) (trim : Bool) (rs : List Circuit) (h : c.split trim = .ok rs) : ∀ r ∈ rs, r.Inv := by
+  unfold Circuit.split at h
+  simp only [bind, Except.bind] at h
+  split at h
+  · cases h
+  · rename_i cs hcs
+    have hall : ∀ x ∈ cs, x.Inv := by
+      refine foldlM_inv (fun (l : List Circuit) => ∀ x ∈ l, x.Inv) _ ?_ c.gates _ cs ?_ hcs
+      · intro b g b' hb hstep
+        split at hstep
+        · split at hstep
+          · rename_i i hi ci hci
+            split at hstep
+            · rename_i ci' hci'
+              injection hstep with hstep; subst hstep
+              intro x hx
+              rcases List.mem_or_eq_of_mem_set hx with e | e
+              · exact hb x e
+              · subst e
+                exact inv_addGate ci _ g (hb ci (List.mem_of_getElem? hci)) hci'
+            · cases hstep
+          · injection hstep with hstep; subst hstep; exact hb
+        · injection hstep with hstep; subst hstep; exact hb
+      · intro x hx
+        obtain ⟨_, _, rfl⟩ := List.mem_map.mp hx
+        exact inv_empty none
+    split at h
+    · exact mapM_inv _ inv_trim cs rs hall h
+    · simp only [pure, Except.pure] at h
+      injection h with h; subst h; exact hall
+
+theorem inv_stack (cs : List Circuit) (r : Circuit) (hcs : ∀ c ∈ cs, c.Inv) (h : Circuit.stack cs = .ok r) : r.Inv := by
+  unfold Circuit.stack at h
+  split at h
+  · injection h with h; subst h; exact inv_empty none
+  · simp only [bind, Except.bind] at h
+    split at h
+    · cases h
+    · rename_i tr htr
+      have htrInv := mapM_inv _ inv_trim cs tr hcs htr
+      split at h
+      · injection h with h; subst h; exact inv_empty none
+      · rename_i first rest
+        refine foldlM_inv (fun (x : Circuit) => x.Inv) _ ?_ rest first r (htrInv first (by simp)) h
+        intro b a b' _ hstep
+        split at hstep
+        · cases hstep
+        · exact inv_add _ _ b' hstep
+
+theorem allInv_putAll (s : Store) (dst : String) (cs : List Circuit) (hs : AllInv s) (hcs : ∀ c ∈ cs, c.Inv) :
+    AllInv (putAll s dst cs) := by
+  unfold putAll
+  have : ∀ (l : List (Circuit × Nat)) (st : Store), AllInv st → (∀ p ∈ l, p.1.Inv) →
+      AllInv (l.foldl (fun st (c, i) => st.put s!"{dst}{i}" c) st) := by
+    intro l
+    induction l with
+    | nil => intro st h _; exact h
+    | cons p ps ih =>
+      intro st h hl
+      apply ih
+      · exact allInv_put st _ p.1 h (hl p (by simp))
+      · intro q hq; exact hl q (by simp [hq])
+  apply this _ _ hs
+  intro p hp
+  exact hcs p.1 (List.mem_zipIdx hp |>.2 |> fun h => by
+    obtain ⟨a, i⟩ := p
+    have := List.mem_zipIdx hp
+    simp only at this ⊢
+    rw [this.2.2]; exact List.getElem_mem _)
+
+/-- **one step keeps the invariant on every stored circuit**, whatever the operation -/
+theorem step_preserves (d : Decide) (s : Store) (op : COp) (hs : AllInv s) : AllInv (step d s op).1 := by
+  unfold step
+  split
+  · rename_i r hr
+    cases op <;> simp only [stepE, bind, Except.bind, pure, Except.pure] at hr
+    case new dst gs n =>
+      split at hr
+      · cases hr
+      · rename_i c hc
+        injection hr with hr; subst hr
+        exact allInv_put s dst c hs (inv_ofGates gs n c hc)
+    case addGate dst g =>
+      split at hr
+      · cases hr
+      · rename_i c hc
+        split at hr
+        · cases hr
+        · cases hr
+        · rename_i gate _
+          split at hr
+          · cases hr
+          · rename_i c' hc'
+            injection hr with hr; subst hr
+            exact allInv_put s dst c' hs (inv_addGate c c' gate (need_inv s dst c hs hc) hc')
+    case add dst a b =>
+      split at hr
+      · cases hr
+      · split at hr
+        · cases hr
+        · split at hr
+          · cases hr
+          · rename_i c hc
+            injection hr with hr; subst hr
+            exact allInv_put s dst c hs (inv_add _ _ c hc)
+    case mul dst a n =>
+      split at hr
+      · cases hr
+      · split at hr
+        · cases hr
+        · rename_i c hc
+          injection hr with hr; subst hr
+          exact allInv_put s dst c hs (inv_mul _ c n hc)
+    case copy dst a =>
+      split at hr
+      · cases hr
+      · split at hr
+        · cases hr
+        · rename_i c hc
+          injection hr with hr; subst hr
+          exact allInv_put s dst c hs (inv_copy _ c hc)
+    case inverse dst a =>
+      split at hr
+      · cases hr
+      · split at hr
+        · cases hr
+        · rename_i c hc
+          injection hr with hr; subst hr
+          exact allInv_put s dst c hs (inv_inverse _ c hc)
+    case trim dst =>
+      split at hr
+      · cases hr
+      · rename_i ca hca
+        split at hr
+        · cases hr
+        · rename_i c hc
+          injection hr with hr; subst hr
+          exact allInv_put s dst c hs (inv_trim ca c (need_inv s dst ca hs hca) hc)
+    case reindex dst idx =>
+      split at hr
+      · cases hr
+      · rename_i ca hca
+        split at hr
+        · cases hr
+        · rename_i c hc
+          injection hr with hr; subst hr
+          exact allInv_put s dst c hs (inv_reindex ca c idx (need_inv s dst ca hs hca) hc)
+    case split dst a trim =>
+      split at hr
+      · cases hr
+      · split at hr
+        · cases hr
+        · rename_i cs hcs
+          injection hr with hr; subst hr
+          exact allInv_putAll s dst cs hs (inv_split _ trim cs hcs)
+    case stack dst ids =>
+      split at hr
+      · cases hr
+      · rename_i cs hcs
+        split at hr
+        · cases hr
+        · rename_i c hc
+          injection hr with hr; subst hr
+          refine allInv_put s dst c hs (inv_stack cs c ?_ hc)
+          -- every operand was read from the store
+          have : ∀ (ids : List String) (cs : List Circuit), ids.mapM (need s) = .ok cs → ∀ x ∈ cs, x.Inv := by
+            intro ids
+            induction ids with
+            | nil => intro cs h; simp [List.mapM_nil, pure, Except.pure] at h; subst h; simp
+            | cons i is ih =>
+              intro cs h
+              rw [List.mapM_cons] at h
+              simp only [bind, Except.bind] at h
+              split at h
+              · cases h
+              · rename_i a ha
+                split at h
+                · cases h
+                · rename_i b hb
+                  simp only [pure, Except.pure] at h
+                  injection h with h; subst h
+                  intro x hx
+                  rcases List.mem_cons.mp hx with e | e
+                  · subst e; exact need_inv s i _ hs ha
+                  · exact ih b hb x e
+          exact this ids cs hcs
+    case rsr dst a thr rq =>
+      split at hr
+      · cases hr
+      · split at hr
+        · cases hr
+        · rename_i c hc
+          injection hr with hr; subst hr
+          exact allInv_put s dst c hs (inv_removeSmall _ _ c rq hc)
+    case rrg dst a rq =>
+      split at hr
+      · cases hr
+      · split at hr
+        · cases hr
+        · rename_i c hc
+          injection hr with hr; subst hr
+          exact allInv_put s dst c hs (inv_removeRedundant _ _ c rq hc)
+    case merge dst a =>
+      split at hr
+      · cases hr
+      · split at hr
+        · cases hr
+        · rename_i c hc
+          injection hr with hr; subst hr
+          exact allInv_put s dst c hs (inv_merge _ _ c hc)
+    case simplify dst a cycles thr rq =>
+      split at hr
+      · cases hr
+      · split at hr
+        · cases hr
+        · rename_i c hc
+          injection hr with hr; subst hr
+          exact allInv_put s dst c hs (inv_simplify _ _ _ c cycles rq hc)
+    case depth a =>
+      split at hr
+      · cases hr
+      · injection hr with hr; subst hr; exact hs
+    case eq a b =>
+      split at hr
+      · cases hr
+      · split at hr
+        · cases hr
+        · injection hr with hr; subst hr; exact hs
+    case entangled a =>
+      split at hr
+      · cases hr
+      · injection hr with hr; subst hr; exact hs
+    case noop => injection hr with hr; subst hr; exact hs
+  · exact hs
+
+/-- **C11, model level**: after *any* finite history of operations, starting from the empty store,
+    every stored circuit reports metadata equal to the recomputation from its gate list. -/
+theorem run_preserves (d : Decide) (ops : List COp) (s : Store) (hs : AllInv s) : AllInv (run d s ops) := by
+  induction ops generalizing s with
+  | nil => exact hs
+  | cons op ops ih => exact ih _ (step_preserves d s op hs)
+
+theorem reachable_inv (d : Decide) (ops : List COp) : AllInv (run d [] ops) :=
+  run_preserves d ops [] (fun _ h => by simp at h)
+
 end Tangelo.C11
